@@ -287,6 +287,10 @@ class OpHarness(symex.Harness):
                         if len(self.known_samples) < 3:
                             self.known_samples.append(dict(fid=fid, res=list(res), vars={str(v): concretise.model_int(m2, v) for v in self.sb.vars}))
                         break
+        if kind == "ans" and res[1] in (True, False) and self.witness.get("twin_negated_spec_detected", 0) < 2 and self.expected() is not None:
+            # vacuity twin: with the specification negated this path must be refutable
+            if eng.vc(Z.And(self.accepted(), Z.Not(self.expected()) != Z.BoolVal(res[1]))) is not None:
+                self.witness["twin_negated_spec_detected"] = self.witness.get("twin_negated_spec_detected", 0) + 1
         if len(self.samples) < 2:
             ms = eng.vc(Z.BoolVal(True))
             if ms is not None:
@@ -376,3 +380,34 @@ def judge_replay(h, cand, const="spelled"):
     if not acc:
         return "not_reproduced", rec     # answering on a non-accepted base is C06's business
     return ("confirmed" if ans != exp else "not_reproduced"), rec
+
+
+# -- shape configurations with literal constants ------------------------------------------
+def const_shape_configs(weakly=False):
+    """Positions of a conditional / query spelled with a literal Top or Bottom, or combined
+    with one; all other positions stay opaque leaves.  (Bottom|A) makes a base strictly
+    inconsistent, so it is only used in extended mode.)"""
+    return [
+        {("A", 0): "top"},                      # (B|Top)
+        {("B", 0): "bot"} if weakly else {("QB", 0): "bot", ("A", 1): "top"},   # (Bottom|A) / query (Bottom|A)
+        {("A", 0): "and_top"},                  # (B|A,Top)
+        {("B", 0): "or_bot"},                   # (B;Bottom|A)
+        {("QA", 0): "top"},                     # query (B|Top)
+        {("QB", 0): "bot"},                     # query (Bottom|A)
+        {("A", 0): "top", ("QA", 0): "top"},
+    ]
+
+
+def struct_shape_configs():
+    """Compound (non-literal) positions, so that conditionals have multi-clause CNFs."""
+    return [
+        {("B", 0): "and"},                      # (l,l'|A)
+        {("A", 0): "or"},                       # (B|l;l')
+        {("B", 0): "or_and"},                   # (l;(l',l'')|A)   -> Tseitin auxiliaries
+        {("QB", 0): "and", ("QA", 0): "or"},
+        {("B", 0): "not", ("A", 1 if False else 0): "not"},
+    ]
+
+
+def shape_name(sh):
+    return ",".join("%s%d=%s" % (k[0], k[1], v) for k, v in sorted(sh.items())) or "leaf"
